@@ -20,6 +20,8 @@
 -/
 import LDEval.Proofs.StatusLog
 import LDEval.Proofs.Refine
+import LDEval.Proofs.AuditBigSeg
+import LDEval.Proofs.AuditBigSegTouched
 
 namespace LD.C11
 
@@ -664,6 +666,591 @@ example : foldStatus [some .healthy, some (.other "BOGUS")] = some (.other "BOGU
 
 end Ex
 
+/-! ## Strengthened statements (theorem audit) -/
+
+/-! ### A. NOT_CONFIGURED is no longer a free alternative (audit finding #38)
+
+`status_worst`, `status_exact`, `status_some_only_if` and `no_provider_status` all allow
+`s = some .notConfigured` unconditionally, because the step relation they rest on (`Prim`, `SPrim`)
+allows the NOT_CONFIGURED assignment from any state.  The statements below rest on the GUARDED
+relation `GPrim` (Proofs/AuditBigSeg.lean): NOT_CONFIGURED that is not the provider's own answer
+has a LOCAL CAUSE `LocalNC env segLookups` — the store returned, for one of the segment keys looked
+up during the evaluation, an unbounded segment without a generation, or there is no provider and the
+context has the kind of such a segment. -/
+
+/-- `LocalNC` spelled out (it is the first alternative of `notConfigured_only_if`). -/
+theorem localNC_iff (env : Env) (lookups : List String) :
+    LocalNC env lookups ↔
+      ∃ k ∈ lookups, ∃ s, env.store.findSegment k = some s ∧ s.unbounded = true ∧
+        (s.generation = none ∨
+          (env.bs = none ∧ (env.ctx.keyByKind s.unboundedContextKind).isSome = true)) :=
+  Iff.rfl
+
+/-- `status_worst` with the NOT_CONFIGURED alternative constrained.  For the Go code: the status in
+the reason is as bad as every status the provider returned in this call, and it is (1) absent with
+no query made, or (2) NOT_CONFIGURED because an evaluated unbounded segment had no generation or
+because no provider is configured and the context has such a segment's kind, or (3) the answer the
+provider gave for one of the queried keys, the last one of the worst. -/
+theorem status_worst_tight (env : Env) (f : Flag) :
+    let o := evaluate env f
+    let s := o.result.detail.reason.bigSegmentsStatus
+    (∀ k ∈ o.bsQueries, ∃ p, env.bs = some p ∧
+        statusPriority (p.get k).status ≤ statusPriority s) ∧
+    ((s = none ∧ o.bsQueries = []) ∨ (s = some .notConfigured ∧ LocalNC env o.segLookups) ∨
+      ∃ p pre k post, env.bs = some p ∧ o.bsQueries = pre ++ k :: post ∧ s = (p.get k).status ∧
+        (∀ k' ∈ pre, statusPriority (p.get k').status ≤ statusPriority s) ∧
+        (∀ k' ∈ post, statusPriority (p.get k').status < statusPriority s)) := by
+  obtain ⟨st, hr, _, _, _, hl, hq, _, hs⟩ := evaluate_greach env f
+  simp only
+  rw [hq, hs, hl]
+  exact ⟨reach_status_ge_queried hr.gReach, gstar_status_seen hr⟩
+
+/-- `status_is_seen_evalFlag` with the NOT_CONFIGURED alternative constrained, for the states the
+evaluator reaches from the empty state (any fuel, any chain). -/
+theorem status_is_seen_evalFlag_tight (sf n : Nat) (env : Env) (f : Flag) (chain : List String) :
+    let st := (evalFlag sf n env f chain {}).2
+    (st.status = none ∧ st.bsQueries = []) ∨
+      (st.status = some .notConfigured ∧ LocalNC env st.segLookups) ∨
+      ∃ p pre k post, env.bs = some p ∧ st.bsQueries = pre ++ k :: post ∧
+        st.status = (p.get k).status ∧
+        (∀ k' ∈ pre, statusPriority (p.get k').status ≤ statusPriority st.status) ∧
+        (∀ k' ∈ post, statusPriority (p.get k').status < statusPriority st.status) :=
+  gstar_status_seen (evalFlag_greach sf n env f chain {})
+
+/-- `status_exact` with the NOT_CONFIGURED alternative constrained: the reported status is Go's
+`computeUpdatedBigSegmentsStatus` folded over the provider's answers in query order, unless
+NOT_CONFIGURED has a local cause. -/
+theorem status_exact_tight (env : Env) (f : Flag) :
+    let o := evaluate env f
+    let s := o.result.detail.reason.bigSegmentsStatus
+    (s = some .notConfigured ∧ LocalNC env o.segLookups) ∨
+      s = foldStatus (o.bsQueries.map (answerOf env)) := by
+  obtain ⟨st, hr, _, _, _, hl, hq, _, hs⟩ := evaluate_greach env f
+  simp only
+  rw [hq, hs, hl]
+  exact gstar_status_fold hr
+
+/-- The statement the audit asks for.  For the Go code: `Evaluate` reports NOT_CONFIGURED only if it
+looked up an unbounded segment that has no generation, or it has no big-segment provider and looked
+up an unbounded segment whose context kind the context has, or the configured provider itself
+answered NOT_CONFIGURED for one of the keys it was asked about.  A bounded segment, a present
+provider answering something else, a nil membership … can not produce it. -/
+theorem notConfigured_only_if (env : Env) (f : Flag)
+    (h : (evaluate env f).result.detail.reason.bigSegmentsStatus = some .notConfigured) :
+    (∃ k ∈ (evaluate env f).segLookups, ∃ s, env.store.findSegment k = some s ∧
+        s.unbounded = true ∧
+        (s.generation = none ∨
+          (env.bs = none ∧ (env.ctx.keyByKind s.unboundedContextKind).isSome = true))) ∨
+    (∃ p k, env.bs = some p ∧ k ∈ (evaluate env f).bsQueries ∧
+        (p.get k).status = some .notConfigured) := by
+  rcases (status_worst_tight env f).2 with ⟨h1, _⟩ | ⟨_, h1⟩ | ⟨p, pre, k, post, hp, hq, hs, _⟩
+  · rw [h] at h1; cases h1
+  · exact .inl h1
+  · right
+    refine ⟨p, k, hp, by rw [hq]; simp, ?_⟩
+    rw [← hs]; exact h
+
+/-- Hypothesis of `notConfigured_only_if` satisfied: no provider, segment `seg` evaluated for a user. -/
+example : (evaluate (Ex.env none (.single Ex.user)) (Ex.flagOn ["seg"])).result.detail.reason.bigSegmentsStatus
+    = some .notConfigured := by decide
+
+/-- Contrapositive, as a refutation of a spurious NOT_CONFIGURED: with a provider that never answers
+NOT_CONFIGURED for a queried key, and every looked-up unbounded segment having a generation, the
+reported status is not NOT_CONFIGURED. -/
+theorem no_spurious_notConfigured (env : Env) (f : Flag) (p : BSProvider) (hp : env.bs = some p)
+    (hgen : ∀ k ∈ (evaluate env f).segLookups, ∀ s, env.store.findSegment k = some s →
+      s.unbounded = true → s.generation ≠ none)
+    (hans : ∀ k ∈ (evaluate env f).bsQueries, (p.get k).status ≠ some .notConfigured) :
+    (evaluate env f).result.detail.reason.bigSegmentsStatus ≠ some .notConfigured := by
+  intro h
+  rcases notConfigured_only_if env f h with ⟨k, hk, s, hf, hu, hc⟩ | ⟨q, k, hq, hk, hs⟩
+  · rcases hc with hc | ⟨hc, _⟩
+    · exact hgen k hk s hf hu hc
+    · rw [hc] at hp; cases hp
+  · have hqp : q = p := by rw [hq] at hp; exact Option.some.inj hp
+    subst hqp
+    exact hans k hk hs
+
+/-- With a provider configured and every looked-up unbounded segment having a generation, the
+reported status is EXACTLY determined by the provider's answers: Go's
+`computeUpdatedBigSegmentsStatus` folded from `""` over the answers in query order (NOT_CONFIGURED
+only if that fold yields it, i.e. the provider said so). -/
+theorem status_exact_of_provider (env : Env) (f : Flag) (p : BSProvider) (hp : env.bs = some p)
+    (hgen : ∀ k ∈ (evaluate env f).segLookups, ∀ s, env.store.findSegment k = some s →
+      s.unbounded = true → s.generation ≠ none) :
+    (evaluate env f).result.detail.reason.bigSegmentsStatus =
+      foldStatus ((evaluate env f).bsQueries.map fun k => (p.get k).status) := by
+  have hmap : (evaluate env f).bsQueries.map (answerOf env) =
+      (evaluate env f).bsQueries.map fun k => (p.get k).status := by
+    apply List.map_congr_left
+    intro k _
+    simp [answerOf, hp]
+  rw [← hmap]
+  rcases status_exact_tight env f with ⟨_, k, hk, s, hf, hu, hc⟩ | h
+  · rcases hc with hc | ⟨hc, _⟩
+    · exact absurd hc (hgen k hk s hf hu)
+    · rw [hc] at hp; cases hp
+  · exact h
+
+/-- Hypotheses of `status_exact_of_provider` / `no_spurious_notConfigured` satisfied by a
+non-trivial evaluation (two contexts, two big segments, a prerequisite; statuses STORE_ERROR and
+STALE). -/
+example :
+    (Ex.env (some Ex.prov) (.multi [Ex.user, Ex.org])).bs = some Ex.prov ∧
+    (evaluate (Ex.env (some Ex.prov) (.multi [Ex.user, Ex.org]))
+      (Ex.flagOn ["seg"] [⟨"pre", 0⟩])).segLookups = ["segOrg", "seg"] ∧
+    (evaluate (Ex.env (some Ex.prov) (.multi [Ex.user, Ex.org]))
+      (Ex.flagOn ["seg"] [⟨"pre", 0⟩])).bsQueries = ["o1", "u1"] ∧
+    (Ex.env (some Ex.prov) (.multi [Ex.user, Ex.org])).store.findSegment "segOrg" = some Ex.segOrg ∧
+    (Ex.env (some Ex.prov) (.multi [Ex.user, Ex.org])).store.findSegment "seg" = some Ex.seg ∧
+    Ex.segOrg.generation ≠ none ∧ Ex.seg.generation ≠ none ∧
+    (evaluate (Ex.env (some Ex.prov) (.multi [Ex.user, Ex.org]))
+      (Ex.flagOn ["seg"] [⟨"pre", 0⟩])).result.detail.reason.bigSegmentsStatus =
+      foldStatus (["o1", "u1"].map fun k => (Ex.prov.get k).status) :=
+  ⟨rfl, by decide, by decide, rfl, rfl, by decide, by decide, by decide⟩
+
+/-- With a provider configured, in general: NOT_CONFIGURED because a looked-up unbounded segment has
+no generation, or the fold of the provider's answers. -/
+theorem status_exact_provider (env : Env) (f : Flag) (p : BSProvider) (hp : env.bs = some p) :
+    let o := evaluate env f
+    let s := o.result.detail.reason.bigSegmentsStatus
+    (s = some .notConfigured ∧ ∃ k ∈ o.segLookups, ∃ seg, env.store.findSegment k = some seg ∧
+        seg.unbounded = true ∧ seg.generation = none) ∨
+      s = foldStatus (o.bsQueries.map fun k => (p.get k).status) := by
+  have hmap : (evaluate env f).bsQueries.map (answerOf env) =
+      (evaluate env f).bsQueries.map fun k => (p.get k).status := by
+    apply List.map_congr_left
+    intro k _
+    simp [answerOf, hp]
+  simp only
+  rw [← hmap]
+  rcases status_exact_tight env f with ⟨h1, k, hk, s, hf, hu, hc⟩ | h
+  · rcases hc with hc | ⟨hc, _⟩
+    · exact .inl ⟨h1, k, hk, s, hf, hu, hc⟩
+    · rw [hc] at hp; cases hp
+  · exact .inr h
+
+/-- `no_provider_status` tightened: without a provider the reported status is absent, or it is
+NOT_CONFIGURED and an unbounded segment was looked up that has no generation or whose kind the
+context has (so a query would have been needed). -/
+theorem no_provider_status_tight (env : Env) (f : Flag) (hbs : env.bs = none) :
+    let o := evaluate env f
+    let s := o.result.detail.reason.bigSegmentsStatus
+    s = none ∨ (s = some .notConfigured ∧
+      ∃ k ∈ o.segLookups, ∃ seg, env.store.findSegment k = some seg ∧ seg.unbounded = true ∧
+        (seg.generation = none ∨ (env.ctx.keyByKind seg.unboundedContextKind).isSome = true)) := by
+  rcases (status_worst_tight env f).2 with ⟨h1, _⟩ | ⟨h1, k, hk, s, hf, hu, hc⟩ | ⟨p, _, _, _, hp, _⟩
+  · exact .inl h1
+  · right
+    refine ⟨h1, k, hk, s, hf, hu, ?_⟩
+    rcases hc with hc | ⟨_, hc⟩
+    · exact .inl hc
+    · exact .inr hc
+  · rw [hbs] at hp; cases hp
+
+example : (Ex.env none (.single Ex.user)).bs = none := rfl
+
+/-- `status_some_only_if` tightened: a status is reported only when the provider was queried or
+NOT_CONFIGURED has a local cause. -/
+theorem status_some_only_if_tight (env : Env) (f : Flag)
+    (h : (evaluate env f).result.detail.reason.bigSegmentsStatus ≠ none) :
+    (evaluate env f).bsQueries ≠ [] ∨
+    ((evaluate env f).result.detail.reason.bigSegmentsStatus = some .notConfigured ∧
+      LocalNC env (evaluate env f).segLookups) := by
+  rcases (status_worst_tight env f).2 with ⟨h1, _⟩ | h1 | ⟨p, pre, k, post, _, hq, _⟩
+  · exact absurd h1 h
+  · exact .inr h1
+  · left
+    rw [hq]; simp
+
+example : (evaluate (Ex.env (some Ex.prov) (.single Ex.user)) (Ex.flagOn ["seg"])).result.detail.reason.bigSegmentsStatus
+    ≠ none := by decide
+
+/-- The refutation the audit found missing, on a concrete observation: for the evaluation of
+`flagOn ["seg"]` with the provider `prov` (which reports STALE), NOT_CONFIGURED does NOT satisfy
+the second conjunct of `status_worst_tight` — whereas it satisfies that of `status_worst` for every
+observation. -/
+example :
+    let env := Ex.env (some Ex.prov) (.single Ex.user)
+    let o := evaluate env (Ex.flagOn ["seg"])
+    let s : Option Status := some .notConfigured
+    ¬ ((s = none ∧ o.bsQueries = []) ∨ (s = some .notConfigured ∧ LocalNC env o.segLookups) ∨
+      ∃ p pre k post, env.bs = some p ∧ o.bsQueries = pre ++ k :: post ∧ s = (p.get k).status ∧
+        (∀ k' ∈ pre, statusPriority (p.get k').status ≤ statusPriority s) ∧
+        (∀ k' ∈ post, statusPriority (p.get k').status < statusPriority s)) := by
+  have hq : (evaluate (Ex.env (some Ex.prov) (.single Ex.user)) (Ex.flagOn ["seg"])).bsQueries = ["u1"] := by
+    decide
+  have hl : (evaluate (Ex.env (some Ex.prov) (.single Ex.user)) (Ex.flagOn ["seg"])).segLookups = ["seg"] := by
+    decide
+  simp only
+  rw [hq, hl]
+  rintro (⟨h, _⟩ | ⟨_, k, hk, s, hf, hu, hc⟩ | ⟨p, pre, k, post, hp, hsplit, hs, _⟩)
+  · cases h
+  · rw [List.mem_singleton] at hk
+    subst hk
+    have hseg : (Ex.env (some Ex.prov) (.single Ex.user)).store.findSegment "seg" = some Ex.seg :=
+      rfl
+    rw [hseg] at hf
+    cases hf
+    rcases hc with hc | ⟨hc, _⟩
+    · cases hc
+    · cases hc
+  · have hp' : p = Ex.prov := (Option.some.inj hp).symm
+    subst hp'
+    have hk : k = "u1" := by
+      have : k ∈ ["u1"] := by rw [hsplit]; simp
+      simpa using this
+    subst hk
+    revert hs
+    decide
+
+/-! ### B. The "if" half for a whole evaluation (audit finding #39) -/
+
+/-- Every unbounded segment the store returned for a key looked up during the evaluation (including
+inside prerequisites and nested segments) left its trace: if it has no generation, NOT_CONFIGURED is
+reported; if it has one and the context has its kind, then NOT_CONFIGURED is reported (no provider,
+or a worse cause elsewhere) or the provider was asked for the context's key of that kind — in this
+evaluation, once — and the reported status has at least the priority of the provider's answer. -/
+def TouchedAll (env : Env) (f : Flag) : Prop :=
+  ∀ k ∈ (evaluate env f).segLookups, ∀ s, env.store.findSegment k = some s →
+    s.unbounded = true →
+    (s.generation = none →
+      (evaluate env f).result.detail.reason.bigSegmentsStatus = some .notConfigured) ∧
+    (∀ g key, s.generation = some g → env.ctx.keyByKind s.unboundedContextKind = some key →
+      (evaluate env f).result.detail.reason.bigSegmentsStatus = some .notConfigured ∨
+      ∃ p, env.bs = some p ∧ key ∈ (evaluate env f).bsQueries ∧
+        statusPriority (p.get key).status ≤
+          statusPriority (evaluate env f).result.detail.reason.bigSegmentsStatus)
+
+theorem touchedAll_of {env : Env} {f : Flag}
+    (ht : ∀ k ∈ (evaluate env f).segLookups, ∀ s, env.store.findSegment k = some s →
+      Relevant env s →
+      (evaluate env f).result.detail.reason.bigSegmentsStatus = some .notConfigured ∨
+      (s.generation.isSome = true ∧
+        ∃ p key, env.bs = some p ∧ env.ctx.keyByKind s.unboundedContextKind = some key ∧
+          key ∈ (evaluate env f).bsQueries ∧
+          statusPriority (p.get key).status ≤
+            statusPriority (evaluate env f).result.detail.reason.bigSegmentsStatus)) :
+    TouchedAll env f := by
+  intro k hk s hf hu
+  constructor
+  · intro hg
+    rcases ht k hk s hf ⟨hu, .inl hg⟩ with h | ⟨hg', _⟩
+    · exact h
+    · rw [hg] at hg'; cases hg'
+  · intro g key hg hkey
+    rcases ht k hk s hf ⟨hu, .inr (by rw [hkey]; rfl)⟩ with h | ⟨_, p, key', hp, hk', hq, hle⟩
+    · exact .inl h
+    · rw [hkey] at hk'
+      cases hk'
+      exact .inr ⟨p, hp, hq, hle⟩
+
+/-- Unless the evaluation ended in an error, every looked-up unbounded segment left its trace
+(`TouchedAll`).  For the Go code: a successful `Evaluate` that consulted an unbounded segment without
+a generation reports NOT_CONFIGURED; one that consulted an unbounded segment for a context having its
+kind reports NOT_CONFIGURED or has asked the provider for that context key, and reports a status at
+least as bad as the answer.
+(The non-error hypothesis is needed in general: a segment-cycle error aborts the evaluation at the
+segment that closes the cycle, before that segment's big-segment logic runs; see
+`touched_needs_nonerror`.  For a store that files every item under its own key it is not needed:
+`touched_evaluate_consistent`.) -/
+theorem touched_evaluate (env : Env) (f : Flag)
+    (hne : (evaluate env f).result.detail.reason.kind ≠ .error) : TouchedAll env f := by
+  rcases evaluate_touched env f with herr | ht
+  · exact absurd herr hne
+  · exact touchedAll_of ht
+
+/-- For a store that files every flag and segment under its own key (what `GetSegment(key)`
+returning the segment with that key means), every looked-up unbounded segment left its trace — also
+when the evaluation ended in an error. -/
+theorem touched_evaluate_consistent (env : Env) (f : Flag) (hcons : StoreConsistent env.store) :
+    TouchedAll env f :=
+  touchedAll_of (evaluate_touched_consistent env f hcons)
+
+/-- Hypotheses of `touched_evaluate` / `touched_evaluate_consistent` satisfied: a non-error result,
+a consistent store, segment `seg` (unbounded, generation 1, kind `user`) looked up, the context has
+kind `user` with key `u1`. -/
+example :
+    (evaluate (Ex.env (some Ex.prov) (.single Ex.user)) (Ex.flagOn ["seg"])).result.detail.reason.kind
+      ≠ .error ∧
+    "seg" ∈ (evaluate (Ex.env (some Ex.prov) (.single Ex.user)) (Ex.flagOn ["seg"])).segLookups ∧
+    (Ex.env (some Ex.prov) (.single Ex.user)).store.findSegment "seg" = some Ex.seg ∧
+    Ex.seg.unbounded = true ∧ Ex.seg.generation = some 1 ∧
+    (Ex.env (some Ex.prov) (.single Ex.user)).ctx.keyByKind Ex.seg.unboundedContextKind = some "u1" :=
+  ⟨by decide, by decide, rfl, rfl, rfl, by decide⟩
+
+/-- `Store.ofLists` files every item under its own key. -/
+theorem storeConsistent_ofLists (fs : List Flag) (ss : List Segment) :
+    StoreConsistent (Store.ofLists fs ss) := by
+  constructor
+  · intro e he
+    obtain ⟨x, _, rfl⟩ := List.mem_map.1 he
+    rfl
+  · intro e he
+    obtain ⟨x, _, rfl⟩ := List.mem_map.1 he
+    rfl
+
+example : StoreConsistent (Ex.env (some Ex.prov) (.single Ex.user)).store :=
+  storeConsistent_ofLists _ _
+
+namespace Ex2
+
+/-- A store whose provider files a generation-less unbounded segment under the lookup key `"b"` but
+with the own key `"x"`, the same own key as the regular segment `"a"` whose rule refers to `"b"`. -/
+def segA : Segment :=
+  { key := "x", rules := [{ clauses := [{ op := "segmentMatch", values := [.str "b"] }] }] }
+def segB : Segment := { key := "x", unbounded := true, unboundedContextKind := "user" }
+def store : Store := { segments := [("a", segA), ("b", segB)] }
+def env : Env :=
+  { opts := {}, store := store, bs := none, ctx := .single Ex.user, rx := fun _ _ => none }
+
+end Ex2
+
+/-- The non-error hypothesis of `touched_evaluate` is necessary: here the unbounded segment filed
+under `"b"` has no generation and IS looked up, but its own key `"x"` is already on the chain (it
+equals the own key of the enclosing segment), so Go's cycle check fires first: the result is an error
+and no status is reported.  (Only a store whose lookup keys differ from the items' own keys can do
+this.) -/
+theorem touched_needs_nonerror :
+    (evaluate Ex2.env (Ex.flagOn ["a"])).segLookups = ["a", "b"] ∧
+    Ex2.env.store.findSegment "b" = some Ex2.segB ∧
+    Ex2.segB.unbounded = true ∧ Ex2.segB.generation = none ∧
+    (evaluate Ex2.env (Ex.flagOn ["a"])).result.detail.reason.kind = .error ∧
+    (evaluate Ex2.env (Ex.flagOn ["a"])).result.detail.reason.bigSegmentsStatus = none :=
+  ⟨by decide, rfl, rfl, rfl, by decide, by decide⟩
+
+/-- Given `TouchedAll`, the reported status is completely determined. -/
+theorem status_determined_of (env : Env) (f : Flag) (ht : TouchedAll env f) :
+    let o := evaluate env f
+    let s := o.result.detail.reason.bigSegmentsStatus
+    (LocalNC env o.segLookups → s = some .notConfigured) ∧
+    (¬ LocalNC env o.segLookups → s = foldStatus (o.bsQueries.map (answerOf env))) := by
+  simp only
+  constructor
+  · rintro ⟨k, hk, seg, hf, hu, hc⟩
+    have ht := ht k hk seg hf hu
+    rcases hc with hc | ⟨hbs, hkey⟩
+    · exact ht.1 hc
+    · cases hg : seg.generation with
+      | none => exact ht.1 hg
+      | some g =>
+        cases hkk : env.ctx.keyByKind seg.unboundedContextKind with
+        | none => rw [hkk] at hkey; cases hkey
+        | some key =>
+          rcases ht.2 g key hg hkk with h | ⟨p, hp, _⟩
+          · exact h
+          · rw [hbs] at hp; cases hp
+  · intro hn
+    rcases status_exact_tight env f with ⟨_, h⟩ | h
+    · exact absurd h hn
+    · exact h
+
+/-- For a result that is not an error the reported status is completely determined: NOT_CONFIGURED
+if it has a local cause (an evaluated unbounded segment without a generation; or no provider and an
+evaluated unbounded segment whose kind the context has), and otherwise exactly the fold of Go's
+`computeUpdatedBigSegmentsStatus` over the provider's answers in query order. -/
+theorem status_determined (env : Env) (f : Flag)
+    (hne : (evaluate env f).result.detail.reason.kind ≠ .error) :
+    let o := evaluate env f
+    let s := o.result.detail.reason.bigSegmentsStatus
+    (LocalNC env o.segLookups → s = some .notConfigured) ∧
+    (¬ LocalNC env o.segLookups → s = foldStatus (o.bsQueries.map (answerOf env))) :=
+  status_determined_of env f (touched_evaluate env f hne)
+
+/-- The same for every result, error or not, when the store files every item under its own key. -/
+theorem status_determined_consistent (env : Env) (f : Flag) (hcons : StoreConsistent env.store) :
+    let o := evaluate env f
+    let s := o.result.detail.reason.bigSegmentsStatus
+    (LocalNC env o.segLookups → s = some .notConfigured) ∧
+    (¬ LocalNC env o.segLookups → s = foldStatus (o.bsQueries.map (answerOf env))) :=
+  status_determined_of env f (touched_evaluate_consistent env f hcons)
+
+/-- "Only if", in terms of the segments: a status is reported only if the store returned, for a key
+looked up during the evaluation, an unbounded segment that lacks a generation or whose kind the
+context has. -/
+theorem status_some_only_if_segment (env : Env) (f : Flag)
+    (h : (evaluate env f).result.detail.reason.bigSegmentsStatus ≠ none) :
+    ∃ k ∈ (evaluate env f).segLookups, ∃ s, env.store.findSegment k = some s ∧
+      s.unbounded = true ∧
+      (s.generation = none ∨ (env.ctx.keyByKind s.unboundedContextKind).isSome = true) := by
+  obtain ⟨st, hr, _, _, _, hl, hq, _, hs⟩ := evaluate_greach env f
+  rw [hl]
+  rw [hs] at h
+  have hkey : ∀ key ∈ st.bsQueries, ∃ k ∈ st.segLookups, ∃ s, env.store.findSegment k = some s ∧
+      s.unbounded = true ∧
+      (s.generation = none ∨ (env.ctx.keyByKind s.unboundedContextKind).isSome = true) := by
+    intro key hkey
+    obtain ⟨s, ⟨k, hk, hf⟩, hu, _, hkk⟩ := gstar_queries hr key hkey
+    exact ⟨k, hk, s, hf, hu, .inr (by rw [hkk]; rfl)⟩
+  rcases gstar_status_seen hr with ⟨h1, _⟩ | ⟨_, k, hk, s, hf, hu, hc⟩ | ⟨p, pre, k, post, _, hsplit, _⟩
+  · exact absurd h1 h
+  · refine ⟨k, hk, s, hf, hu, ?_⟩
+    rcases hc with hc | ⟨_, hc⟩
+    · exact .inl hc
+    · exact .inr hc
+  · exact hkey k (by rw [hsplit]; simp)
+
+/-- Given `TouchedAll` and a provider that never answers `""`: status iff relevant segment. -/
+theorem status_some_iff_of (env : Env) (f : Flag) (hans : AnswersNonEmpty env)
+    (ht : TouchedAll env f) :
+    (evaluate env f).result.detail.reason.bigSegmentsStatus ≠ none ↔
+    ∃ k ∈ (evaluate env f).segLookups, ∃ s, env.store.findSegment k = some s ∧
+      s.unbounded = true ∧
+      (s.generation = none ∨ (env.ctx.keyByKind s.unboundedContextKind).isSome = true) := by
+  constructor
+  · exact status_some_only_if_segment env f
+  · rintro ⟨k, hk, s, hf, hu, hc⟩ hnone
+    have ht := ht k hk s hf hu
+    have hq0 : (evaluate env f).bsQueries = [] := by
+      obtain ⟨st, hr, _, _, _, _, hq, _, hs⟩ := evaluate_reach0 env f
+      rw [hq]; rw [hs] at hnone
+      exact reach_status_none_queries hans hr.toReach hnone
+    cases hg : s.generation with
+    | none =>
+      have := ht.1 hg
+      rw [hnone] at this; cases this
+    | some g =>
+      rw [hg] at hc
+      rcases hc with hc | hc
+      · cases hc
+      · cases hkk : env.ctx.keyByKind s.unboundedContextKind with
+        | none => rw [hkk] at hc; cases hc
+        | some key =>
+          rcases ht.2 g key hg hkk with h | ⟨p, _, hq, _⟩
+          · rw [hnone] at h; cases h
+          · rw [hq0] at hq; cases hq
+
+/-- "The reason carries a big-segments status IFF some unbounded segment was evaluated for a context
+having its kind (or lacked a generation)", for `Evaluate` itself: true whenever the result is not an
+error and the provider never answers the empty status `""` (in particular when it answers one of the
+four constants). -/
+theorem status_some_iff (env : Env) (f : Flag) (hans : AnswersNonEmpty env)
+    (hne : (evaluate env f).result.detail.reason.kind ≠ .error) :
+    (evaluate env f).result.detail.reason.bigSegmentsStatus ≠ none ↔
+    ∃ k ∈ (evaluate env f).segLookups, ∃ s, env.store.findSegment k = some s ∧
+      s.unbounded = true ∧
+      (s.generation = none ∨ (env.ctx.keyByKind s.unboundedContextKind).isSome = true) :=
+  status_some_iff_of env f hans (touched_evaluate env f hne)
+
+/-- The same for every result, error or not, when the store files every item under its own key. -/
+theorem status_some_iff_consistent (env : Env) (f : Flag) (hans : AnswersNonEmpty env)
+    (hcons : StoreConsistent env.store) :
+    (evaluate env f).result.detail.reason.bigSegmentsStatus ≠ none ↔
+    ∃ k ∈ (evaluate env f).segLookups, ∃ s, env.store.findSegment k = some s ∧
+      s.unbounded = true ∧
+      (s.generation = none ∨ (env.ctx.keyByKind s.unboundedContextKind).isSome = true) :=
+  status_some_iff_of env f hans (touched_evaluate_consistent env f hcons)
+
+/-- The provider's answer `""` is what makes the "if" half fail without `AnswersNonEmpty`: the
+segment `seg` is evaluated for a user, the provider is asked, answers `""`, and no status is
+reported. -/
+example :
+    (evaluate (Ex.env (some (Ex.provWith none none)) (.single Ex.user))
+      (Ex.flagOn ["seg"])).result.detail.reason.bigSegmentsStatus = none ∧
+    (evaluate (Ex.env (some (Ex.provWith none none)) (.single Ex.user))
+      (Ex.flagOn ["seg"])).segLookups = ["seg"] ∧
+    (evaluate (Ex.env (some (Ex.provWith none none)) (.single Ex.user))
+      (Ex.flagOn ["seg"])).result.detail.reason.kind ≠ .error := by decide
+
+/-- Hypotheses of `status_some_iff` satisfied (`prov` answers STALE / STORE_ERROR / the default
+HEALTHY, never `""`). -/
+example : AnswersNonEmpty (Ex.env (some Ex.prov) (.single Ex.user)) := by
+  intro p hp k
+  have : p = Ex.prov := (Option.some.inj hp).symm
+  subst this
+  unfold BSProvider.get
+  cases h : List.lookup k Ex.prov.table with
+  | none => rfl
+  | some a =>
+    obtain ⟨l₁, l₂, hsplit, _⟩ := List.lookup_eq_some_iff.1 h
+    have hmem : (k, a) ∈ Ex.prov.table := by rw [hsplit]; simp
+    simp only [Ex.prov, List.mem_cons, Prod.mk.injEq, List.not_mem_nil, or_false] at hmem
+    rcases hmem with ⟨_, rfl⟩ | ⟨_, rfl⟩ <;> rfl
+
+/-! ### C. Queries and membership checks are caused by segments (audit findings #40, #41) -/
+
+/-- Every key the provider is asked about is the context's key for the kind of an unbounded segment,
+with a generation, that the store returned for a key looked up in this evaluation.  Together with
+`query_once`: one query per such key. -/
+theorem queries_are_context_keys (env : Env) (f : Flag) :
+    ∀ key ∈ (evaluate env f).bsQueries, ∃ k ∈ (evaluate env f).segLookups, ∃ s g,
+      env.store.findSegment k = some s ∧ s.unbounded = true ∧ s.generation = some g ∧
+      env.ctx.keyByKind s.unboundedContextKind = some key := by
+  obtain ⟨st, hr, _, _, _, hl, hq, _, _⟩ := evaluate_greach env f
+  rw [hl, hq]
+  intro key hkey
+  obtain ⟨s, ⟨k, hk, hf⟩, hu, hg, hkk⟩ := gstar_queries hr key hkey
+  cases hgen : s.generation with
+  | none => rw [hgen] at hg; cases hg
+  | some g => exact ⟨k, hk, s, g, hf, hu, hgen, hkk⟩
+
+/-- Query economy in numbers: the provider is asked at most once per individual context of the
+evaluation context (each queried key is the key of one of them, and no key is queried twice). -/
+theorem queries_le_individuals (env : Env) (f : Flag) :
+    (evaluate env f).bsQueries.length ≤ env.ctx.individuals.length := by
+  have hsub : (evaluate env f).bsQueries ⊆ env.ctx.individuals.map (·.key) := by
+    intro key hkey
+    obtain ⟨_, _, s, _, _, _, _, hkk⟩ := queries_are_context_keys env f key hkey
+    unfold Ctx.keyByKind Ctx.byKind at hkk
+    obtain ⟨sc, hsc, rfl⟩ := Option.map_eq_some_iff.mp hkk
+    exact List.mem_map.mpr ⟨sc, List.mem_of_find?_eq_some hsc, rfl⟩
+  have := (List.subperm_of_subset (query_once env f) hsub).length_le
+  simpa using this
+
+/-- Every `CheckMembership` call the evaluator makes: its argument is the reference
+`<key>.g<generation>` of an unbounded segment (with that generation) the store returned for a key
+looked up in this evaluation; it is made on the membership the provider returned — non-nil — for
+the context's key of that segment's kind, and that key is among the queried keys. -/
+theorem memChecks_spec (env : Env) (f : Flag) :
+    ∀ c ∈ (evaluate env f).memChecks, ∃ k ∈ (evaluate env f).segLookups, ∃ s g p tbl,
+      env.store.findSegment k = some s ∧ s.unbounded = true ∧ s.generation = some g ∧
+      env.ctx.keyByKind s.unboundedContextKind = some c.1 ∧
+      c.2 = s.key ++ ".g" ++ toString g ∧
+      env.bs = some p ∧ c.1 ∈ (evaluate env f).bsQueries ∧ (p.get c.1).membership = some tbl := by
+  obtain ⟨st, hr, _, _, _, hl, hq, hm, _⟩ := evaluate_greach env f
+  rw [hl, hq, hm]
+  intro c hc
+  obtain ⟨s, tbl, ⟨k, hk, hf⟩, hu, hg, hkk, href, hcache⟩ := gstar_memChecks hr c hc
+  obtain ⟨p, hp, hqk, hmem⟩ := reach_cached hr.gReach hcache
+  cases hgen : s.generation with
+  | none => rw [hgen] at hg; cases hg
+  | some g =>
+    exact ⟨k, hk, s, g, p, tbl, hf, hu, hgen, hkk, by rw [href, ref_format s g hgen], hp, hqk, hmem⟩
+
+/-- No unbounded segment looked up ⇒ no big-segment activity at all: no status, no query, no
+membership check. -/
+theorem no_unbounded_nothing (env : Env) (f : Flag)
+    (h : ∀ k ∈ (evaluate env f).segLookups, ∀ s, env.store.findSegment k = some s →
+      s.unbounded = false) :
+    (evaluate env f).result.detail.reason.bigSegmentsStatus = none ∧
+    (evaluate env f).bsQueries = [] ∧ (evaluate env f).memChecks = [] := by
+  refine ⟨?_, ?_, ?_⟩
+  · cases hs : (evaluate env f).result.detail.reason.bigSegmentsStatus with
+    | none => rfl
+    | some x =>
+      obtain ⟨k, hk, s, hf, hu, _⟩ := status_some_only_if_segment env f (by rw [hs]; simp)
+      rw [h k hk s hf] at hu; cases hu
+  · cases hq : (evaluate env f).bsQueries with
+    | nil => rfl
+    | cons key rest =>
+      obtain ⟨k, hk, s, _, hf, hu, _⟩ :=
+        queries_are_context_keys env f key (by rw [hq]; exact List.mem_cons_self)
+      rw [h k hk s hf] at hu; cases hu
+  · cases hm : (evaluate env f).memChecks with
+    | nil => rfl
+    | cons c rest =>
+      obtain ⟨k, hk, s, _, _, _, hf, hu, _⟩ :=
+        memChecks_spec env f c (by rw [hm]; exact List.mem_cons_self)
+      rw [h k hk s hf] at hu; cases hu
+
+/-- The statements of this section on a concrete evaluation: two membership checks, one query. -/
+example :
+    let o := evaluate (Ex.env (some Ex.prov) (.single Ex.user)) (Ex.flagOn ["seg", "seg2"])
+    o.segLookups = ["seg", "seg2"] ∧ o.bsQueries = ["u1"] ∧
+    o.memChecks = [("u1", "seg.g1"), ("u1", "seg2.g7")] ∧
+    (Ex.env (some Ex.prov) (.single Ex.user)).ctx.individuals.length = 1 := by decide
+
+
 end LD.C11
 
 #print axioms LD.C11.membership
@@ -693,3 +1280,27 @@ end LD.C11
 #print axioms LD.C11.status_ge_queried_four_constants
 #print axioms LD.C11.status_worst_four_constants
 #print axioms LD.C11.status_none_no_query_four_constants
+#print axioms LD.C11.status_worst_tight
+#print axioms LD.C11.status_exact_tight
+#print axioms LD.C11.status_is_seen_evalFlag_tight
+#print axioms LD.C11.status_determined_of
+#print axioms LD.C11.status_some_iff_of
+#print axioms LD.C11.storeConsistent_ofLists
+#print axioms LD.C11.notConfigured_only_if
+#print axioms LD.C11.no_spurious_notConfigured
+#print axioms LD.C11.status_exact_of_provider
+#print axioms LD.C11.status_exact_provider
+#print axioms LD.C11.no_provider_status_tight
+#print axioms LD.C11.status_some_only_if_tight
+#print axioms LD.C11.touched_evaluate
+#print axioms LD.C11.touched_evaluate_consistent
+#print axioms LD.C11.status_determined_consistent
+#print axioms LD.C11.status_some_iff_consistent
+#print axioms LD.C11.touched_needs_nonerror
+#print axioms LD.C11.status_determined
+#print axioms LD.C11.status_some_only_if_segment
+#print axioms LD.C11.status_some_iff
+#print axioms LD.C11.queries_are_context_keys
+#print axioms LD.C11.queries_le_individuals
+#print axioms LD.C11.memChecks_spec
+#print axioms LD.C11.no_unbounded_nothing
